@@ -197,18 +197,17 @@ class P(Prop):
         (M, "TV.C14.enu_rebase", "ENU(b1)->ENU(b2)->ENU(b1) and ENU(b)->ENU(b) are the identity; rebasing then Geo equals Geo directly"),
         (M, "TV.C14.track_records_base", "Track.toENUCoords converts every position with the base and records base.toGeoCoords(); default base = first observation"),
         (M, "TV.C14.track_round_trip", "whole-track ECEF->ENU->ECEF is the identity; Geo->ENU->ECEF/Geo through the recorded GeoCoords base equals the direct conversion"),
-        (M, "TV.C14.lambert_round_trip_partial", "Lambert-93 forward then inverse: longitude and isometric latitude exact; the original latitude is a fixed point of the loop body"),
+        (M, "TV.C14.lambert_loop_structure", "Lambert-93 forward then inverse: longitude and isometric latitude exact; the original latitude is a fixed point of the loop body, which is a contraction (factor <= 0.007)"),
+        (M, "TV.C14.lambert_round_trip", "Lambert-93 forward then inverse returns lon and z exactly and lat within (E^2/(1-E^2))^11 |lat| < 1e-20 degree, for lon, lat in (-90, 90) degrees"),
     ]
     partial = [
         "geo_ecef_geo_partial / geo_enu_geo_partial: proved for h = 0 (and the longitude for every h, lon_recovered); missing: latitude and height "
         "for h != 0, where ECEFCoords.toGeoCoords (Bowring, one step) is an approximation with no exact identity (about 1.3e-6 m at 10 km)",
-        "lambert_round_trip_partial: longitude, isometric latitude and the fixed-point property are exact; missing: that 10 passes of the "
-        "loop started at 2 atan(exp L) - pi/2 end within 1e-9 degree of the fixed point",
     ]
     open_statements = [
         "|lat' - lat| <= 1e-9 deg and |h' - h| <= 1 mm for Geo->ECEF->Geo with -1000 <= h <= 10000, h != 0 (needs verified interval analysis of "
         "sin, cos, atan2, sqrt): covered by correspondence + transfer only",
-        "convergence of the 10 Lambert passes to 1e-9 deg: correspondence + transfer only",
+        "Lambert-93 inverse then forward (XY -> Geo -> XY) within 1 mm: follows over the reals from lambert_round_trip only for XY in the image of the forward map; sampled by the transfer check",
         "IEEE rounding of every formula (theorems are over the reals): transfer only",
         "whole-track round trip through the recorded base when the base was given as ECEFCoords: false as an exact statement (the recorded "
         "base is the closed-form inverse of it) and beyond 1e-9 deg next to the poles: the known finding",
@@ -382,7 +381,7 @@ class P(Prop):
         pts = [[rng.uniform(-1e4, 1e4), rng.uniform(-1e4, 1e4), rng.uniform(-100, 1000)] for _ in range(n)]
         if rng.random() < 0.2:
             pts[0] = [0.0, 0.0, 0.0]
-        home = self.as_base(self.rand_geo(rng) if not france else g0, rng, "G")
+        home = self.as_base(self.rand_geo(rng) if not france else g0, rng)
         with_base = rng.random() < 0.7
         a = None if with_base else home
         menu = [
